@@ -18,7 +18,8 @@ def options(cfg, geo, eps):
           "matrix_epsilon": eps, "block_size": geo["block"], "merge": geo["merge"],
           "merge_block": geo["merge_limit"], "ptype": geo["ptype"],
           "exponent_override": geo["override"], "thr": 0.1, "diagonal_epsilon": geo.get("diag_eps", 1e-10),
-          "eigh": geo.get("eigh", False), "memred": geo.get("memred", False), "clip": (0.5 if cfg.get("clip") else None), "compression_rank": geo.get("crank", 0)}
+          "eigh": geo.get("eigh", False), "memred": geo.get("memred", False), "clip": (0.5 if cfg.get("clip") else None), "compression_rank": geo.get("crank", 0),
+          "relative_eps": geo.get("rel", True)}
 
 
 def dense_packed(p, size, crank):
@@ -72,9 +73,11 @@ def handle(job):
       out = []
       for bi in range(len(geos[i].blocks)):
         if crank:
-          out.append([refds.compressed_root(st_[bi][k], geos[i].p, eps, crank) for k in range(len(geos[i].axes))])
+          out.append([refds.compressed_root(st_[bi][k], geos[i].p, eps, crank, relative=geo.get("rel", True))
+                      for k in range(len(geos[i].axes))])
         else:
-          out.append([refds.inv_root(st_[bi][k], geos[i].p, eps * mult[off[i] + bi * len(geos[i].axes) + k])
+          out.append([refds.inv_root(st_[bi][k], geos[i].p, eps * mult[off[i] + bi * len(geos[i].axes) + k],
+                                     relative=geo.get("rel", True))
                       for k in range(len(geos[i].axes))])
       return out
 
